@@ -24,6 +24,7 @@ type c04Config struct {
 	Mode    string `json:"mode"`
 	Get     bool   `json:"get"`
 	PostSSE bool   `json:"postsse"`
+	MW      bool   `json:"mw"` // a pass-through middleware is configured
 }
 
 type c04Step struct {
@@ -44,6 +45,8 @@ type c04Obs struct {
 	Err     string   `json:"err,omitempty"`
 	Body    string   `json:"body,omitempty"`
 	SentHdr string   `json:"sent_hdr,omitempty"`
+	// ServedIn: the session id a whoami call reported, when it is not the id the request bore
+	ServedIn string `json:"served_in,omitempty"`
 }
 
 type c04PathResult struct {
@@ -62,7 +65,21 @@ func c04NewServer(cfg c04Config) *mcp.Server {
 	case "nosession":
 		opts = append(opts, mcp.WithoutSession())
 	}
+	if cfg.MW {
+		// a middleware that does nothing: the session a request is served in does not depend on it
+		opts = append(opts, mcp.WithMiddleware(func(next mcp.HandlerFunc) mcp.HandlerFunc {
+			return func(ctx context.Context, req *mcp.JSONRPCRequest) (mcp.JSONRPCMessage, error) { return next(ctx, req) }
+		}))
+	}
 	srv := mcp.NewServer("verif", "1.0", opts...)
+	// whoami: the id of the session the request is served in
+	srv.RegisterTool(mcp.NewTool("whoami"), func(ctx context.Context, req *mcp.CallToolRequest) (*mcp.CallToolResult, error) {
+		id := "none"
+		if sess, ok := mcp.GetSessionFromContext(ctx); ok && sess != nil {
+			id = sess.GetID()
+		}
+		return mcp.NewTextResult("served-in:" + id + ";"), nil
+	})
 	srv.RegisterTool(mcp.NewTool("echo", mcp.WithString("text")), func(ctx context.Context, req *mcp.CallToolRequest) (*mcp.CallToolResult, error) {
 		return mcp.NewTextResult("x"), nil
 	})
@@ -126,6 +143,7 @@ func c04RunPath(cfg c04Config, id string, steps []c04Step, foreign string, share
 	}()
 	ctx := context.Background()
 	next := 1
+	cfgOf := func(st c04Step) bool { return cfg.Mode == "stateful" && st.Cls == "live" }
 	for _, st := range steps {
 		hdr := map[string]string{}
 		sent := ""
@@ -165,12 +183,20 @@ func c04RunPath(cfg c04Config, id string, steps []c04Step, foreign string, share
 		var r peer.Resp
 		switch st.Op {
 		case "init":
-			r = peer.PostJSON(ctx, url, hdr, peer.InitRequest(1), st.SSE)
+			ib := peer.InitRequest(1)
+			if st.Cls == "live" && st.Variant%4 == 3 {
+				// a re-initialize the server answers with an error (no protocolVersion): the session it bears lives on
+				ib = []byte(`{"jsonrpc":"2.0","id":1,"method":"initialize","params":{"clientInfo":{"name":"raw","version":"0"},"capabilities":{}}}`)
+			}
+			r = peer.PostJSON(ctx, url, hdr, ib, st.SSE)
 		case "req":
 			body := `{"jsonrpc":"2.0","id":7,"method":"tools/list"}`
 			switch st.Variant % 4 {
 			case 1:
 				body = `{"jsonrpc":"2.0","id":"p","method":"ping"}`
+				if cfgOf(st) {
+					body = `{"jsonrpc":"2.0","id":"w","method":"tools/call","params":{"name":"whoami","arguments":{}}}`
+				}
 			case 2:
 				body = `{"jsonrpc":"2.0","id":8,"method":"tools/call","params":{"name":"counter","arguments":{}}}`
 			case 3:
@@ -178,6 +204,15 @@ func c04RunPath(cfg c04Config, id string, steps []c04Step, foreign string, share
 			}
 			r = peer.PostJSON(ctx, url, hdr, []byte(body), st.SSE)
 			o.Body = string(r.Body)
+			if i := strings.Index(o.Body, "served-in:"); i >= 0 && sent != "" {
+				got := o.Body[i+10:]
+				if j := strings.Index(got, ";"); j >= 0 {
+					got = got[:j]
+				}
+				if got != sent {
+					o.ServedIn = got
+				}
+			}
 		case "notif":
 			body := `{"jsonrpc":"2.0","method":"notifications/initialized"}`
 			switch st.Variant % 4 {
